@@ -133,6 +133,20 @@ Fixpoint bound_values (v : val) : list scalar :=
 
 (* "[]byte is one value": the reference reading of a statement is taken on the input in which every
    []byte argument is made opaque (wrapped like a driver.Valuer, which no code path takes apart) *)
+(* ... also where a []byte (or a driver.Valuer whose Value() is a []byte: a binary key) is the only
+   argument of a primary-key condition (First(&x, key), Where(key), Delete(&x, key)): it is ONE key *)
+Definition sole_bytes (q : val) (args : list val) : option string :=
+  match args, q with
+  | [], VS (SBytes b) | [], VDrv (SBytes b) => match s2l b with [] => None | _ => Some b end
+  | _, _ => None
+  end.
+Definition one_key (b : string) : val := VIn primary_column [VDrv (SBytes b)].
+Definition unbytes_conds (ub : val -> val) (c : list val) : list val :=
+  match c with
+  | q :: args => match sole_bytes q args with Some b => [one_key b] | None => map ub c end
+  | [] => []
+  end.
+
 Fixpoint unbytes (v : val) : val :=
   match v with
   | VS (SBytes b) => match s2l b with [] => v | _ => VDrv (SBytes b) end
@@ -152,8 +166,10 @@ Fixpoint unbytes (v : val) : val :=
   | VSubN ti q wh => VSubN ti (unbytes q) (map unbytes wh)
   | VRawSub s vars => VRawSub s (map unbytes vars)
   | VSub ti chain => VSub ti (map unbytes chain)
-  | KCond k q args => KCond k (unbytes q) (map unbytes args)
-  | KHaving q args => KHaving (unbytes q) (map unbytes args)
+  | KCond k q args =>
+    match sole_bytes q args with Some b => KCond k (one_key b) [] | None => KCond k (unbytes q) (map unbytes args) end
+  | KHaving q args =>
+    match sole_bytes q args with Some b => KHaving (one_key b) [] | None => KHaving (unbytes q) (map unbytes args) end
   | KSelect q args => KSelect q (map unbytes args)
   | KTable nm al args => KTable nm al (map unbytes args)
   | KJoins q args => KJoins q (map unbytes args)
@@ -167,14 +183,14 @@ Fixpoint unbytes (v : val) : val :=
   end.
 Definition unbytes_fin (f : fin) : fin :=
   match f with
-  | FFind c => FFind (map unbytes c) | FFirst c => FFirst (map unbytes c)
-  | FTake c => FTake (map unbytes c) | FLast c => FLast (map unbytes c)
+  | FFind c => FFind (unbytes_conds unbytes c) | FFirst c => FFirst (unbytes_conds unbytes c)
+  | FTake c => FTake (unbytes_conds unbytes c) | FLast c => FLast (unbytes_conds unbytes c)
   | FCount => FCount
   | FPluck c => FPluck c
   | FUpdate c v => FUpdate c (unbytes v)
   | FUpdatesMap kv => FUpdatesMap (map unbytes kv)
   | FUpdatesStruct fs => FUpdatesStruct (map unbytes fs)
-  | FDelete c => FDelete (map unbytes c)
+  | FDelete c => FDelete (unbytes_conds unbytes c)
   | FCreateStruct fs => FCreateStruct (map unbytes fs)
   | FCreateSlice rows => FCreateSlice (map unbytes rows)
   | FCreateMap kv => FCreateMap (map unbytes kv)
